@@ -29,6 +29,7 @@ GUARD = "SQISIGN_SQISIGN2D_WEST_AC24_VERIF"
 # expression, _ = opaque.  A callee that touches a tracked array and is not listed here is refused.
 KINDS = {
     ("vla", ""): ("vla", None),
+    ("cond", "i"): ("read", None),                 # an opaque branch condition reads a tracked scalar
     ("copy_point", "ii"): ("copy", None), ("copy_point", "i_"): ("copyIn", None),
     ("xDBL_A24", "ii_"): ("dbl", None), ("xDBL_A24_normalized", "ii_"): ("dbl", None),
     ("xDBL_A24_normalized", "_i_"): ("read", None), ("xDBL_A24", "_i_"): ("read", None),
@@ -36,6 +37,8 @@ KINDS = {
     ("xeval_4", "AAn_"): ("eval4", None), ("xeval_4_singular", "AAni_"): ("eval4", [0]),
     ("xeval_4_singular", "__ni_"): ("read", [1]),
     ("xisog_2", "__i"): ("isog2", None),
+    # naive chain (ec_eval_small_chain): the scalar points big_K / small_K are slots 0 / 1 of a virtual tracked array
+    ("xeval_2", "iin_"): ("eval2", None), ("xeval_2_singular", "iin_"): ("eval2", None),
     # theta chains (arrays: points1/2, Q1/2, steps); with array ids every index is passed as (array id, index)
     ("copy_jac_point", "i_"): ("copyIn", None), ("copy_jac_point", "_i"): ("read", None),
     ("double_couple_jac_point_iter", "in_i"): ("dblIterP", None),
@@ -275,6 +278,9 @@ class Ctx:
         self.array_ids = None                      # name -> id: when set, every tracked index is passed as (id, index)
         self.field_arrays = {}                     # `x->steps[i]`: field name -> tracked array name
         self.returned = False
+        self.scalars = {}                          # tracked scalar objects: name -> slot of the virtual array "K"
+        self.dyn_oracle = False                    # opaque conditions inside `for` loops: oracle index depends on the loop variable
+        self.loopvars = []                         # stack of `for` loop variables (None for while loops)
 
     # ---- int expressions: returns (binds, pure, ctype); binds = [(name, except_expr)]
     def fresh(self, binds):
@@ -420,6 +426,8 @@ class Ctx:
             e = e[2]
         while e[0] == "field":
             e = e[1]
+        if e[0] == "var" and e[1] in self.scalars:
+            return "K", ("lit", self.scalars[e[1]])
         if e[0] == "var" and e[1] in self.tracked:
             return e[1], None
         if e[0] == "idx" and e[1][0] == "var" and e[1][1] in self.tracked:
@@ -427,6 +435,22 @@ class Ctx:
         if e[0] == "idx" and e[1][0] == "field" and e[1][2] in self.field_arrays:
             return self.field_arrays[e[1][2]], e[2]
         return None
+
+    def tracked_reads(self, e):
+        """slots of the tracked scalars mentioned in an (opaque) expression, in order of appearance"""
+        out = []
+        def walk(x):
+            if isinstance(x, tuple):
+                if len(x) >= 2 and x[0] == "var" and x[1] in self.scalars:
+                    if self.scalars[x[1]] not in out:
+                        out.append(self.scalars[x[1]])
+                for y in x[1:]:
+                    walk(y)
+            elif isinstance(x, list):
+                for y in x:
+                    walk(y)
+        walk(e)
+        return out
 
     def idx_args(self, arr, v):
         return [str(self.array_ids[arr]), v] if self.array_ids is not None else [v]
@@ -543,17 +567,29 @@ class Ctx:
                 if self.mentions_int_lvalue(st[1]):
                     raise TranslateError("chainskel: opaque condition over integer state")
                 k_ = self.noracle; self.noracle += 1
-                out.append("(fun s => if oracle %d then %s s else %s s)" % (k_, self.seq(a), self.seq(b)))
+                for slot in self.tracked_reads(st[1]):     # the condition reads these tracked scalars
+                    out.append("(fun s => %s)" % self.event("cond", "i", [ "(%d : Int)" % slot ]))
+                idx = "%d" % k_
+                if self.dyn_oracle and self.loopvars and self.loopvars[-1]:
+                    idx = "(%d + NORACLE * (s.%s).toNat)" % (k_, self.loopvars[-1])
+                out.append("(fun s => if oracle %s then %s s else %s s)" % (idx, self.seq(a), self.seq(b)))
         elif k in ("while", "for"):
+            lv = None
             if k == "for":
                 for x in st[1]:
                     self.stmts(x, out)
+                    if x[0] == "decl" and len(x[2]) == 1:
+                        lv = x[2][0][0]
+                    elif x[0] == "expr" and x[1][0] == "assign" and x[1][2][0] == "var":
+                        lv = x[1][2][1]
                 cond, body, step = st[2], st[4], st[3]
             else:
                 cond, body, step = st[1], st[2], []
             idx = self.nloop; self.nloop += 1
             inner = []
+            self.loopvars.append(lv if lv in self.vars else None)
             self.stmts(body, inner)
+            self.loopvars.pop()
             for x in step:
                 self.stmts(x, inner)
             binds = []; c = self.be(cond, binds)
@@ -594,12 +630,15 @@ class Ctx:
         return "O %s %s oracle fuel %s" % ("T" if self.table2d else "row", " ".join(self.consts), " ".join(self.params))
 
 
-def translate(src, fname, struct, int_params, table2d=None, row_ptr=None, tracked=(), consts=(), array_ids=None, field_arrays=None):
+def translate(src, fname, struct, int_params, table2d=None, row_ptr=None, tracked=(), consts=(), array_ids=None, field_arrays=None,
+              scalars=None, dyn_oracle=False):
     _, body = function_body(src, fname)
     ast = Parser(tokenize("{" + body + "}")).block()
     cx = Ctx(fname, struct, int_params, table2d, row_ptr, tracked, consts)
     cx.array_ids = array_ids
     cx.field_arrays = field_arrays or {}
+    cx.scalars = dict(scalars or {})
+    cx.dyn_oracle = dyn_oracle
     top = []
     cx.stmts(ast, top)
     fields = ["  %s : %s" % (n, "Int" if k == "var" else "IArr") for n, k in cx.order]
@@ -614,7 +653,8 @@ def translate(src, fname, struct, int_params, table2d=None, row_ptr=None, tracke
     out += [x + "\n" for x in cx.loops]
     out += ["/-- `%s`: integer skeleton -/" % fname,
             "def %s %s (s : %s σ) : %s σ :=\n%s" % (fname, cx.sig(), struct, struct, cx.body_text(top)), ""]
-    return "\n".join(out), cx
+    txt = "\n".join(out).replace("NORACLE", str(max(cx.noracle, 1)))
+    return txt, cx
 
 
 def generate(repo, outdir):
@@ -624,6 +664,10 @@ def generate(repo, outdir):
     src = preprocess(open(os.path.join(repo, "src/ec/ref/ecx/isog_chains.c")).read())
     txt, _ = translate(src, "ec_eval_even_strategy", "EvenSt", [("isog_len", "int"), ("points_len", "int")],
                        table2d="STRATEGY4", consts=[("TORSION_PLUS_EVEN_POWER", "u64")])
+    parts.append(txt)
+    # the naive chain: no table, the points big_K / small_K are the slots 0 / 1; the singular test may differ per iteration
+    txt, _ = translate(src, "ec_eval_small_chain", "SmallSt", [("len", "int"), ("len_points", "int")],
+                       scalars={"big_K": 0, "small_K": 1}, dyn_oracle=True)
     parts.append(txt)
     src2 = preprocess(open(os.path.join(repo, "src/hd/ref/hdx/theta_isogenies.c")).read())
     ids = {"points1": 1, "points2": 2, "Q1": 3, "Q2": 4, "steps": 5}
